@@ -129,13 +129,13 @@ func execJSON(raw json.RawMessage) (res execResult, err error) {
 	return
 }
 
-const c09Rule = "parser level: every pair (representation at indexing time, representation at query time) of the values {0, +-1, +-3, 7, +-127, 255, +-2^31, +-2^53+-1, +-2^62} in every supported shape (all integer widths, numeric string, json.Number, float32/64 incl. fractional, scalar / typed slice / heterogeneous list) and pairs of different values; end to end: the same pairs through AddDocument/Retrieve on both posting-list indexes; JSON ingest: documents of every operator (in/not-in on default, pattern and range containers, >, <, between) marshalled, unmarshalled and rebuilt, answers compared with the original index on 10..16 queries, and the decoded values compared with the model of encoding/json (Model/Json.v); dedicated cases for float32 values around 2^24 and for empty / nil slices as expression values. Non-trivial (parser level) = both sides accepted; distinct = distinct input"
+const c09Rule = "parser level: every pair (representation at indexing time, representation at query time) of the values {0, +-1, +-3, 7, +-127, 255, +-2^31, +-2^53+-1, +-2^62} in every supported shape (all integer widths, numeric string, json.Number, float32/64 incl. fractional, scalar / typed slice / heterogeneous list) and pairs of different values; end to end: the same pairs through AddDocument/Retrieve on both posting-list indexes; JSON ingest: documents of every operator (in/not-in on default, pattern and range containers, >, <, between) marshalled, unmarshalled and rebuilt, answers compared with the original index on 10..16 queries, and the decoded values compared with the model of encoding/json (Model/Json.v); dedicated cases for float32 values around 2^24 and for empty / nil slices as expression values. roaring default container: include and exclude on one field of one conjunction against assigned lists in both orders and several representations; Non-trivial (parser level) = both sides accepted; distinct = distinct input"
 
 func init() {
 	vals := []int64{0, 1, -1, 3, -3, 7, 127, -127, 255, 1 << 31, -(1 << 31), 1<<53 - 1, -(1<<53 - 1), 1 << 62, -(1 << 62)}
 	props["C09"] = &propDef{
 		header:    "From BE Require Import Corr.CheckC09.",
-		headers:   map[string]string{"P": "From BE Require Import Corr.CheckParse.", "E": "From BE Require Import Corr.CheckE2E.", "J": "From BE Require Import Corr.CheckJson."},
+		headers:   map[string]string{"P": "From BE Require Import Corr.CheckParse.", "E": "From BE Require Import Corr.CheckE2E.", "J": "From BE Require Import Corr.CheckJson.", "R": "From BE Require Import Corr.CheckRr."},
 		rule:      c09Rule,
 		shardSize: 400,
 		gen: func(tier string, r *Rand, add func(in interface{})) {
@@ -218,6 +218,25 @@ func init() {
 				}
 				add(c)
 			}
+			// the roaring index's default container: include and exclude on ONE field of one conjunction, assigned lists that
+			// carry the same texts in either order and in several representations
+			{
+				c := rCase{Fields: []rField{{F: 0, Cont: "default"}, {F: 1, Cont: "default"}}}
+				c.Docs = []eDoc{
+					{ID: 1, Cons: []eConj{{{F: 0, Inc: true, V: tvSlice("[]int", tvInt("int", 7))}, {F: 0, Inc: false, V: tvSlice("[]string", tvStr("3"))}}}},
+					{ID: 2, Cons: []eConj{{{F: 0, Inc: true, V: tvList(tvStr("3"), tvInt("int", 5))}}}},
+					{ID: 3, Cons: []eConj{{{F: 0, Inc: false, V: tvFloat("float64", 7.5)}, {F: 1, Inc: true, V: tvStr("x")}, {F: 0, Inc: true, V: tvJSON("5")}}}},
+				}
+				for i, v := range []TV{
+					tvSlice("[]int", tvInt("int", 3), tvInt("int", 7)), tvSlice("[]int", tvInt("int", 7), tvInt("int", 3)),
+					tvSlice("[]string", tvStr("3"), tvStr("7")), tvList(tvStr("3"), tvInt("int", 7)), tvList(tvInt("int8", 7), tvStr("3")),
+					tvSlice("[]float64", tvFloat("float64", 3.2), tvFloat("float64", 7.9)), tvSlice("[]float64", tvFloat("float64", 7.9), tvFloat("float64", 3.2)),
+					tvInt("int", 7), tvStr("3"), tvSlice("[]int64", tvInt("int64", 7), tvInt("int64", 5)), tvSlice("[]int64", tvInt("int64", 5), tvInt("int64", 7)), tvList(tvJSON("5"), tvUint("uint16", 7), tvStr("3")),
+				} {
+					c.Ops = append(c.Ops, rOp{S: 0, Op: "reset"}, rOp{S: 0, Op: []string{"retrieve", "docs"}[i%2], A: []eAssign{{F: 0, V: v}, {F: 1, V: tvStr("x")}}}, rOp{S: 0, Op: "raw"})
+				}
+				add(c)
+			}
 			denseAllocatorCases(add) // value identity does not depend on which id allocator names the texts
 			// JSON ingest
 			nj := 60
@@ -264,11 +283,16 @@ func init() {
 		},
 		exec: func(raw json.RawMessage) (execResult, error) {
 			var probe struct {
-				K    string `json:"k"`
-				JSON bool   `json:"json"`
+				K      string          `json:"k"`
+				JSON   bool            `json:"json"`
+				Fields json.RawMessage `json:"fields"`
 			}
 			json.Unmarshal(raw, &probe)
 			switch {
+			case probe.Fields != nil:
+				res, err := execRr(raw)
+				res.Family = "R"
+				return res, err
 			case probe.K != "":
 				return execParse(raw)
 			case probe.JSON:
